@@ -84,7 +84,7 @@ def cover(v, recs_by_campaign, stats, tr_total):
     v.cov["cases_run"] = sum(s[0] for s in stats if s)
     v.cov["encoder_refused"] = sum(s[2] for s in stats if s)
     v.cov["evaluations"] = sum(s[0] for s in stats if s)
-    v.cov["traces_validated_against_impl"] = tr_total
+    v.cov["traces_validated_against_impl"] += tr_total
     v.cov["distinct_nontrivial"] = len({(r["gt"], r["m"], r["sub"], r["es"], r["ds"], r["builtin"], r["split"], r["pred"], json.dumps(r["qbits"]), r.get("shape"), r["bytes"])
                                         for r in allrecs if r.get("e") == "RT" and r["eok"]})
     for r in [x for x in allrecs if x.get("e") == "RT" and x["eok"] and not x["big"]][:2]:
